@@ -476,6 +476,10 @@ class ListMonitor:
                     bad.append(("altered", a[3][0], ident(a[3])))
         if bad:
             kinds = sorted({b[0] for b in bad})
+            # class of the history: the object brought in was itself BELOW a member that the assignment drops (it is
+            # rescued out of the deleted subtree, fix 94513dd) - the deletion purged the references to it beforehand
+            if st.op in ("setitem", "setslice", "assign") and any(n in snap0 and under(snap0[n][1], set(gone), snap0) for n in moved_roots if snap0.get(n) and snap0[n][1] is not None):
+                kinds.append("new-member-was-below-a-dropped-member")
             self.find(rec, f"side-effect|{kind}|{st.op}|{'+'.join(kinds)}",
                       f"{st.op} on {st.rel.key()} changed other parts of the model: {bad[:4]} ({len(bad)} in total)")
 
